@@ -134,6 +134,8 @@ def _index(kind, n):
         return pd.Index([f"k{x:03d}" for x in i], name="ix")
     if kind == "dt":
         return pd.Index(pd.Timestamp("2024-01-01") + pd.to_timedelta(i * 6, unit="h"), name="ix")
+    if kind == "dt_off":  # the first timestamp is not on the grid of any requested frequency
+        return pd.Index(pd.Timestamp("2024-01-01 05:00") + pd.to_timedelta(i * 6, unit="h"), name="ix")
     raise KeyError(kind)
 
 
@@ -150,7 +152,7 @@ def r_case(case, common, out):
             if isinstance(nin, (list, tuple)):
                 bounds = np.cumsum([0] + list(nin))
                 pieces = [pdf.iloc[a:b] for a, b in zip(bounds, bounds[1:])]
-                divs = tuple(p.index[0] for p in pieces) + (pieces[-1].index[-1],) if kind in ("int", "float", "str", "dt") else None
+                divs = tuple(p.index[0] for p in pieces) + (pieces[-1].index[-1],) if kind in ("int", "float", "str", "dt", "dt_off") else None
                 df = dx.from_map(lambda p: p, pieces, meta=pdf.iloc[:0], divisions=divs, enforce_metadata=False)
             else:
                 df = dx.from_pandas(pdf, npartitions=nin, sort=True)
@@ -192,7 +194,7 @@ def r_case(case, common, out):
             # an explicit rejection is allowed only for requests the input cannot satisfy
             satisfiable = not (what == "divisions" and kind in ("dupint", "dupmax") and arg in ("finer", "shifted"))
             bump(out, "C13.R.repartition:rows-order-divisions", None, rule="index dtype x input layout x request")
-            if what in ("npartitions", "partition_size") or (what == "divisions" and arg in ("same", "coarser")):
+            if what in ("npartitions", "partition_size", "freq") or (what == "divisions" and arg in ("same", "coarser")):
                 viol(out, "C13.R.repartition:rejects-a-satisfiable-request", sig, f"{type(ex).__name__}: {str(ex)[:160]}", replay)
             else:
                 out["notes"][f"rejected: {sig}"] = f"{type(ex).__name__}: {str(ex)[:80]}"
@@ -208,7 +210,11 @@ def r_case(case, common, out):
     if len(parts) != q.npartitions:
         out["notes"][f"computed partition count differs from npartitions (C06's business): {sig}"] = f"{len(parts)} vs {q.npartitions}"
     d = q.divisions
-    if what in ("divisions", "force") and d[0] is not None:
+    if what == "freq":
+        if d[0] is None or list(d) != sorted(d) or len(d) != len(parts) + 1:
+            viol(out, "C13.R.repartition:freq-divisions-malformed", sig, f"divisions {tuple(str(x) for x in d)} for {len(parts)} computed partitions", replay)
+            return
+    if what in ("divisions", "force", "freq") and d[0] is not None:
         for j, p in enumerate(parts):
             if len(p) == 0:
                 continue
@@ -252,13 +258,14 @@ def run(run):
     bsel = vs if run.tier == "thorough" else vs
     run_cases(run, "vf.props.C13", "s_case", [(c, bsel) for c in chunks], {}, chunk=1)
     rc = []
-    for kind in ("int", "dupint", "dupmax", "float", "str", "dt"):
+    for kind in ("int", "dupint", "dupmax", "float", "str", "dt", "dt_off"):
         for n, nin in ((24, 4), (24, 1), (25, 7), (24, (10, 4, 10)), (30, (12, 3, 15))):
             for req in (("npartitions", 2), ("npartitions", 1), ("npartitions", 9), ("npartitions", 4), ("divisions", "coarser"), ("divisions", "finer"), ("divisions", "shifted"), ("divisions", "repeat-last"), ("divisions", "same"), ("force", None), ("partition_size", "0.3kB"), ("partition_size", "1kB")):
                 rc.append((kind, n, nin, req))
-            if kind == "dt":
+            if kind in ("dt", "dt_off"):
                 rc.append((kind, n, nin, ("freq", "1D")))
                 rc.append((kind, n, nin, ("freq", "2D")))
+                rc.append((kind, n, nin, ("freq", "12h")))
     run_cases(run, "vf.props.C13", "r_case", rc, {}, chunk=4)
     run.assume("A2: n_in / n_out and int(i * ratio) in RepartitionToFewer are evaluated over the reals in the proof; the same expressions are executed concretely by the cross-check for n_in <= 40 and five large pairs")
     run.assume("L1 (boundaries partition a range, Lean 4, lemmas/L1.lean): monotone boundaries from 0 to n cover every input partition exactly once")
